@@ -22,6 +22,8 @@ type harness struct {
 	tier  string
 	prop  string
 	stats map[string]int
+	// dumpDir, when set, receives every generated case as <name>.case
+	dumpDir string
 }
 
 func sortStrings(s []string) { sort.Strings(s) }
